@@ -467,3 +467,54 @@ func trieVectorsOwnTheirMemory(c *eng.Ctx) {
 		c.Check(n >= 3 && m >= 3, "vector-inits-found", nil, nil, "the trie's vectors are initialised from the builder's levels", fmt.Sprintf("%d Init(levels) methods, %d slice stores", n, m))
 	})
 }
+
+// ---- F75 (C12, C19): "the last task collects" is decided on the value the decrement returned ------------------------------------------------
+//
+// The grouping tag values of a leaf are collected once, by the task that completes last.  CompleteGroupingTask decrements
+// groupingRelatedTasks; whether THIS call was the last one is what the decrement returns.  Reading the counter again after
+// the decrement lets two tasks that finish together both see zero: the collection runs twice, the first run drains the id
+// bitmaps, the second replaces every collected map by nil and the groups of the leaf come back as "tag_value_not_found".
+func lastTaskDecidedByTheDecrement(c *eng.Ctx) {
+	p := c.P
+	c.Rule("ATOMIC", "query/context.LeafGroupingContext.CompleteGroupingTask{the collection runs for the call whose decrement reached zero}", func() {
+		f := c.Fn("query/context.LeafGroupingContext.CompleteGroupingTask")
+		const ctr = "query/context.LeafGroupingContext.groupingRelatedTasks"
+		var decs []ssa.Value
+		for _, b := range eng.BlocksT(f) {
+			for _, in := range b.Instrs {
+				if fa, m, _ := eng.AtomicOp(in); fa != nil && eng.FieldKeyOfAddr(fa) == ctr && (m == "Dec" || m == "Add" || m == "Sub") {
+					if v, ok := in.(ssa.Value); ok {
+						decs = append(decs, v)
+					}
+				}
+			}
+		}
+		if len(decs) != 1 {
+			c.Undecided("unresolved anchor: expected one decrement of groupingRelatedTasks in CompleteGroupingTask, found %d", len(decs))
+		}
+		acts := c.Some(f, eng.AnyCallTo("flow.StorageExecuteContext.CollectTagValues"), "storageExecuteCtx.CollectTagValues(collect)")
+		for i, a := range acts {
+			conds, _ := eng.GuardingConds(f, a.Instr)
+			byDec, byReload := false, false
+			for _, cd := range conds {
+				if eng.DependsOn(cd, func(x ssa.Value) bool { return x == decs[0] }) {
+					byDec = true
+				}
+				if eng.DependsOn(cd, func(x ssa.Value) bool {
+					in, ok := x.(ssa.Instruction)
+					if !ok {
+						return false
+					}
+					fa, m, _ := eng.AtomicOp(in)
+					return fa != nil && eng.FieldKeyOfAddr(fa) == ctr && m == "Load"
+				}) {
+					byReload = true
+				}
+			}
+			c.Check(byDec, fmt.Sprintf("collect-guarded-by-the-decrement's-result[%d]", i), a.Instr, f,
+				"exactly one completing task collects the grouping tag values: the one whose decrement returned zero; a second read of the counter after the decrement is zero for every task that finishes in the same instant, the collection then runs twice and the second run (over the drained id bitmaps) replaces the collected values by nil",
+				fmt.Sprintf("guarded by the decrement's result: %v, by a separate Load of the counter: %v", byDec, byReload))
+		}
+		_ = p
+	})
+}
